@@ -53,7 +53,13 @@ func New[H Hash](options ...func(config *Config[H])) (*DBFT[H], error) {
 func (d *DBFT[H]) addTransaction(tx Transaction[H]) {
 	d.Transactions[tx.Hash()] = tx
 	if d.hasAllTransactions() {
-		if d.IsPrimary() || d.Context.WatchOnly() {
+		if d.IsPrimary() {
+			return
+		}
+		if d.Context.WatchOnly() {
+			// No response from us, but PreCommits received while some
+			// transactions were missing can (and must) be verified now.
+			d.verifyPreCommitPayloadsAgainstPreBlock()
 			return
 		}
 
